@@ -18,7 +18,7 @@ impl Scn {
     fn from_json(o: &str) -> Option<Scn> { let s = json::get_nums(o, "start"); Some(Scn { start: [s[0], s[1], s[2], s[3], s[4], s[5]], dx: json::get_num(o, "dx")?, dz: json::get_num(o, "dz")?, nsteps: json::get_num(o, "nsteps")? as usize,
         obstacle: o.contains("\"obstacle\": true"), include_interp: o.contains("\"include_interp\": true"), step_m: json::get_num(o, "step_m")?, cost_deg: json::get_num(o, "cost_deg")?, depth: json::get_num(o, "depth")? as usize }) }
 }
-fn robot(obstacle_at: Option<[f32; 3]>) -> KinematicsWithShape {
+pub fn robot(obstacle_at: Option<[f32; 3]>) -> KinematicsWithShape {
     let h = 0.02f32;
     let links = [box_mesh([0.0; 3], [h, h, h], false), box_mesh([0.0; 3], [h, h, h], true), box_mesh([0.0; 3], [h, h, h], false), box_mesh([0.0; 3], [h, h, h], true), box_mesh([0.0; 3], [h, h, h], false), box_mesh([0.0; 3], [h, h, h], true)];
     let env = match obstacle_at { Some(c) => vec![CollisionBody { mesh: box_mesh(c, [0.04, 0.04, 0.04], true), pose: Isometry3::identity() }], None => vec![] };
